@@ -45,6 +45,11 @@ var clientIP = map[string]string{"aa": "10.1.1.1", "": "8.8.8.8"}
 
 // sections observed and the names that carry the candidate set for them.
 // fam: 4, 6, or 0 = both families at the target (additional section only).
+type cfgKey struct {
+	s  slot
+	cl string
+}
+
 type slot struct {
 	Sect string // "answer", "mx", "ns"
 	Fam  int
@@ -52,30 +57,31 @@ type slot struct {
 
 func (s slot) String() string { return fmt.Sprintf("%s/fam%d", s.Sect, s.Fam) }
 
-// owner of the candidate rows for a slot
-func (s slot) owner() string {
+// owner of the candidate rows for a slot; zone is "example.com." or, inside a
+// multi-set RocksDB store, "p<k>.example.com." (an empty non-terminal of the zone)
+func (s slot) owner(zone string) string {
 	switch s.Sect {
 	case "answer":
-		return "www.example.com."
+		return "www." + zone
 	case "mx":
-		return fmt.Sprintf("mx%d.example.com.", s.Fam)
+		return fmt.Sprintf("mx%d.%s", s.Fam, zone)
 	default:
-		return fmt.Sprintf("ns.d%d.example.com.", s.Fam)
+		return fmt.Sprintf("ns.d%d.%s", s.Fam, zone)
 	}
 }
 
 // the query that makes the server select among the slot's rows
-func (s slot) query() (string, uint16) {
+func (s slot) query(zone string) (string, uint16) {
 	switch s.Sect {
 	case "answer":
 		if s.Fam == 6 {
-			return "www.example.com.", dns.TypeAAAA
+			return "www." + zone, dns.TypeAAAA
 		}
-		return "www.example.com.", dns.TypeA
+		return "www." + zone, dns.TypeA
 	case "mx":
-		return fmt.Sprintf("m%d.example.com.", s.Fam), dns.TypeMX
+		return fmt.Sprintf("m%d.%s", s.Fam, zone), dns.TypeMX
 	default:
-		return fmt.Sprintf("x.d%d.example.com.", s.Fam), dns.TypeA
+		return fmt.Sprintf("x.d%d.%s", s.Fam, zone), dns.TypeA
 	}
 }
 
@@ -96,15 +102,17 @@ type row struct {
 type world struct {
 	set     []sym
 	backend dnsfix.Backend
+	zone    string // names of this set live under this name
+	shared  bool   // the database belongs to a universe (several sets in one store)
 	text    string
 	path    string
 	h       *dnsfix.Handler
-	both    bool                 // the both-family targets exist
-	rows    map[string][]row     // owner|clientloc -> rows in the order the server's reader enumerates them
-	byAddr  map[string][2]int    // address text -> (candidate index, family)
-	vis     map[string]*visInfo
-	nk      map[string]int // slot|client -> key draws the handler takes
-	dr      map[string][]row
+	both    bool              // the both-family targets exist
+	rows    map[string][]row  // owner|clientloc -> rows in the order the server's reader enumerates them
+	byAddr  map[string][2]int // address text -> (candidate index, family)
+	vis     map[cfgKey]*visInfo
+	nk      map[cfgKey]int // key draws the handler takes
+	dr      map[cfgKey][]row
 }
 
 func setKey(set []sym) string {
@@ -124,16 +132,16 @@ func sortSyms(set []sym) {
 	})
 }
 
-// fileText renders the data file of a candidate set: the set is declared, in
-// both address families, at www (answer section), and per family (and, for
-// small sets, in both families together) at an MX target and at the glue name
-// of a delegation. Every owner also carries two records tagged for another
-// location (bb), which no client of this check may ever be served.
-func fileText(set []sym, both bool) string {
+// setText renders the records of a candidate set below zone: the set is
+// declared, in both address families, at www (answer section), and per family
+// (and, for small sets, in both families together) at an MX target and at the
+// glue name of a delegation. Every owner also carries two records tagged for
+// another location (bb), which no client of this check may ever be served.
+func setText(set []sym, both bool, zone string) string {
 	var sb strings.Builder
-	sb.WriteString(skeleton)
-	put := func(owner string, fams ...int) {
-		o := strings.TrimSuffix(owner, ".")
+	z := strings.TrimSuffix(zone, ".")
+	put := func(label string, fams ...int) {
+		o := label + "." + z
 		for _, f := range fams {
 			for i, s := range set {
 				ip := addr4(i)
@@ -149,54 +157,68 @@ func fileText(set []sym, both bool) string {
 			}
 		}
 	}
-	put("www.example.com.", 4, 6)
+	put("www", 4, 6)
 	fams := []int{4, 6}
 	if both {
 		fams = append(fams, 0)
 	}
 	for _, f := range fams {
-		fmt.Fprintf(&sb, "@m%d.example.com,,mx%d.example.com,10,300,,\n", f, f)
-		fmt.Fprintf(&sb, "&d%d.example.com,,ns.d%d.example.com,3600,,\n", f, f)
+		fmt.Fprintf(&sb, "@m%d.%s,,mx%d.%s,10,300,,\n", f, z, f, z)
+		fmt.Fprintf(&sb, "&d%d.%s,,ns.d%d.%s,3600,,\n", f, z, f, z)
 		ff := []int{f}
 		if f == 0 {
 			ff = []int{4, 6}
 		}
-		put(fmt.Sprintf("mx%d.example.com.", f), ff...)
-		put(fmt.Sprintf("ns.d%d.example.com.", f), ff...)
+		put(fmt.Sprintf("mx%d", f), ff...)
+		put(fmt.Sprintf("ns.d%d", f), ff...)
 	}
 	return sb.String()
 }
 
 var scratchDir string
 
+func bothFor(set []sym, b dnsfix.Backend) bool {
+	return len(set) <= 2 && (b == dnsfix.CDB || len(set) == 1)
+}
+
+// openWorld compiles the data file of one candidate set (CDB: one database per set).
 func openWorld(set []sym, b dnsfix.Backend) *world {
-	w := &world{set: set, backend: b, both: len(set) <= 2 && (b == dnsfix.CDB || len(set) == 1), rows: map[string][]row{}, byAddr: map[string][2]int{}}
-	w.text = fileText(set, w.both)
+	w := &world{set: set, backend: b, zone: "example.com.", both: bothFor(set, b)}
+	w.text = skeleton + setText(set, w.both, w.zone)
 	p, err := dnsfix.Compile(scratchDir, b, []byte(w.text))
 	if err != nil {
 		vlib.Infra("compile of a generated data file failed (%v):\n%s", err, w.text)
 	}
 	w.path = p
-	for i := range set {
+	h, err := dnsfix.OpenHandler(b, p, dnsfix.HandlerOpts{})
+	if err != nil {
+		vlib.Infra("handler %s: %v", p, err)
+	}
+	w.h = h
+	w.calibrate()
+	return w
+}
+
+// calibrate reads the row order of the set's owners as the handler's own
+// reader enumerates it (it labels draws with candidates; the oracle's verdicts
+// do not depend on it).
+func (w *world) calibrate() {
+	w.rows, w.byAddr = map[string][]row{}, map[string][2]int{}
+	for i := range w.set {
 		w.byAddr[addr4(i).String()] = [2]int{i, 4}
 		w.byAddr[addr6(i).String()] = [2]int{i, 6}
 	}
-	// row order as the server's own reader enumerates it (labels draws with candidates; the
-	// oracle's verdicts do not depend on it)
-	d, err := db.Open(p, b.Driver())
+	rd, err := w.h.H.AcquireReader()
 	if err != nil {
-		vlib.Infra("open %s: %v", p, err)
+		vlib.Infra("reader %s: %v", w.path, err)
 	}
-	rd, err := db.NewReader(d)
-	if err != nil {
-		vlib.Infra("reader %s: %v", p, err)
-	}
-	owners := []string{"www.example.com."}
+	defer rd.Close()
+	owners := []string{"www." + w.zone}
 	for _, f := range []int{4, 6, 0} {
 		if f == 0 && !w.both {
 			continue
 		}
-		owners = append(owners, fmt.Sprintf("mx%d.example.com.", f), fmt.Sprintf("ns.d%d.example.com.", f))
+		owners = append(owners, slot{"mx", f}.owner(w.zone), slot{"ns", f}.owner(w.zone))
 	}
 	buf := make([]byte, 255)
 	for _, o := range owners {
@@ -227,17 +249,68 @@ func openWorld(set []sym, b dnsfix.Backend) *world {
 			w.rows[o+"|"+cl] = rows
 		}
 	}
-	rd.Close()
-	d.Destroy()
+}
+
+// ---- universes: one RocksDB store holding every candidate set up to a size (each under its own label) ----
+
+type universe struct {
+	backend dnsfix.Backend
+	path    string
+	h       *dnsfix.Handler
+	zones   map[string]string // set key -> zone
+	texts   map[string]string
+}
+
+var universes = map[dnsfix.Backend]*universe{}
+var universeMaxSize = 2
+
+func getUniverse(b dnsfix.Backend) *universe {
+	if u, ok := universes[b]; ok {
+		return u
+	}
+	u := &universe{backend: b, zones: map[string]string{}, texts: map[string]string{}}
+	var sb strings.Builder
+	sb.WriteString(skeleton)
+	k := 0
+	for n := 1; n <= universeMaxSize; n++ {
+		for _, set := range multisets(alphabet, n) {
+			zone := fmt.Sprintf("p%d.example.com.", k)
+			k++
+			u.zones[setKey(set)] = zone
+			t := setText(set, bothFor(set, b), zone)
+			u.texts[setKey(set)] = t
+			sb.WriteString(t)
+		}
+	}
+	p, err := dnsfix.Compile(scratchDir, b, []byte(sb.String()))
+	if err != nil {
+		vlib.Infra("compile of the %s universe failed: %v", b, err)
+	}
+	u.path = p
 	h, err := dnsfix.OpenHandler(b, p, dnsfix.HandlerOpts{})
 	if err != nil {
 		vlib.Infra("handler %s: %v", p, err)
 	}
-	w.h = h
+	u.h = h
+	universes[b] = u
+	return u
+}
+
+func (u *universe) world(set []sym) *world {
+	zone, ok := u.zones[setKey(set)]
+	if !ok {
+		vlib.Infra("set %s is not part of the %s universe (size bound %d)", setKey(set), u.backend, universeMaxSize)
+	}
+	w := &world{set: set, backend: u.backend, zone: zone, shared: true, both: bothFor(set, u.backend), path: u.path, h: u.h}
+	w.text = skeleton + u.texts[setKey(set)] + "(... the records of the other candidate sets of this store, each below its own p<k>.example.com ...)\n"
+	w.calibrate()
 	return w
 }
 
 func (w *world) close() {
+	if w.shared {
+		return
+	}
 	if w.h != nil {
 		w.h.Close()
 		w.h = nil
@@ -248,15 +321,15 @@ func (w *world) close() {
 // drawRows are the rows that consume one key draw each, in order, when the
 // slot's query is served for a client in location cl.
 func (w *world) drawRows(s slot, cl string) []row {
-	ck := s.String() + "|" + cl
+	ck := cfgKey{s, cl}
 	if v, ok := w.dr[ck]; ok {
 		return v
 	}
 	if w.dr == nil {
-		w.dr = map[string][]row{}
+		w.dr = map[cfgKey][]row{}
 	}
 	out := []row{}
-	for _, r := range w.rows[s.owner()+"|"+cl] {
+	for _, r := range w.rows[s.owner(w.zone)+"|"+cl] {
 		if s.Fam == 0 || r.Fam == s.Fam {
 			out = append(out, r)
 		}
@@ -275,8 +348,8 @@ type worldCache struct {
 
 var cache = &worldCache{m: map[string]*world{}, cap: 48}
 
-// RocksDB worlds are expensive to build (every compile allocates two 100000-entry batches) and few: kept apart
-var rdbCache = &worldCache{m: map[string]*world{}, cap: 200}
+// views into a RocksDB universe are cheap and few: never evicted
+var rdbCache = &worldCache{m: map[string]*world{}, cap: 1 << 30}
 
 func getWorld(set []sym, b dnsfix.Backend) *world {
 	cache := cache
@@ -287,14 +360,18 @@ func getWorld(set []sym, b dnsfix.Backend) *world {
 	if w, ok := cache.m[k]; ok {
 		return w
 	}
-	capacity := cache.cap
-	for len(cache.order) >= capacity {
+	for len(cache.order) >= cache.cap {
 		old := cache.order[0]
 		cache.order = cache.order[1:]
 		cache.m[old].close()
 		delete(cache.m, old)
 	}
-	w := openWorld(append([]sym(nil), set...), b)
+	var w *world
+	if b == dnsfix.CDB {
+		w = openWorld(append([]sym(nil), set...), b)
+	} else {
+		w = getUniverse(b).world(append([]sym(nil), set...))
+	}
 	cache.m[k] = w
 	cache.order = append(cache.order, k)
 	return w
@@ -307,6 +384,11 @@ func closeWorlds() {
 		}
 		cache.m, cache.order = map[string]*world{}, nil
 	}
+	for b, u := range universes {
+		u.h.Close()
+		os.RemoveAll(u.path)
+		delete(universes, b)
+	}
 }
 
 // visInfo: the declared candidates of a slot that a client location may see,
@@ -317,7 +399,7 @@ type visInfo struct {
 }
 
 func (w *world) visible(s slot, cl string) *visInfo {
-	k := s.String() + "|" + cl
+	k := cfgKey{s, cl}
 	if v, ok := w.vis[k]; ok {
 		return v
 	}
@@ -342,7 +424,7 @@ func (w *world) visible(s slot, cl string) *visInfo {
 		}
 	}
 	if w.vis == nil {
-		w.vis = map[string]*visInfo{}
+		w.vis = map[cfgKey]*visInfo{}
 	}
 	w.vis[k] = v
 	return v
